@@ -9,6 +9,7 @@ pub mod c04;
 pub mod c05;
 pub mod c06;
 pub mod c06_shell;
+pub mod c07;
 pub mod c09;
 pub mod c10;
 pub mod c11;
@@ -27,6 +28,7 @@ pub fn run(ctx: &Ctx) -> Option<&'static str> {
         "C02" => Some(c02::run(ctx)),
         "C03" => Some(c03::run(ctx)),
         "C04" => Some(c04::run(ctx)),
+        "C07" => Some(c07::run(ctx)),
         "C09" => Some(c09::run(ctx)),
         "C10" => Some(c10::run(ctx)),
         "C11" => Some(c11::run(ctx)),
